@@ -267,6 +267,25 @@ def run(tier_name=None, replay=None):
                  "path": {"kind": "steps", "steps": tsteps(steps)}, "text": "engine:" + which + ":" + text,
                  "out": out, "same": True, "res": tagged.enc(res), "hard": False, "engine": True}
         add(o, doc=doc, engine=which)
+    # $$.Execution.Input after the START state has placed a result into its input (at every depth of an existing
+    # container): the context path must still return exactly the original input
+    n_ctx = 0
+    xcases = [(copy.deepcopy(doc), steps, render(steps, "dot" if k % 2 else "bracket"))
+              for doc in ({"a": 1, "b": {"a": [1, 2]}}, {"a": {"b": None}}, [1, {"a": 2}], {"a b": {"a": 1}, "a": 1}, {})
+              for k, steps in enumerate(all_steps(2))]
+    for doc, steps, text in xcases if thorough else xcases[::2]:
+        P, SM = S.P, S.SM
+        asl = SM("A", A=P(Result={"n": 1}, ResultPath=text, Next="B"), B=P(Parameters={"orig.$": "$$.Execution.Input"}, End=True))
+        r = run_once(S.scn("c12x", asl, inputs=(copy.deepcopy(doc),)), d1=False)
+        rec = list(r.outcomes.values())[0]
+        if not rec or rec["status"] != "SUCCEEDED":
+            continue                                   # (the placement itself failed: judged above)
+        n_ctx += 1
+        cx = {"Execution": {"Input": doc}}
+        psteps = [{"key": "Execution"}, {"key": "Input"}]
+        add({"id": oid(), "kind": "select", "doc": tagged.enc({"x": 1}), "ctx": tagged.enc(cx), "path": {"kind": "ctx", "steps": tsteps(psteps)},
+             "text": "engine:execution-input-after:" + text, "out": {"kind": "value", "v": tagged.enc(json.loads(rec["output"]).get("orig"))},
+             "same": True, "res": tagged.enc(None), "hard": False, "engine": True}, doc=doc, engine="execution-input")
     try:
         fails, stats = judge.run_judge("JudgeC12", obs, os.path.join(RUN, "C12-" + t))
         ok, lawstats, tail = judge.run_laws("RefPath")
